@@ -37,7 +37,9 @@ U1 = {
     "C20": (["handshake"], ["PROPERTY Act_C20"]),
 }
 # C12: "... and the original Deferreds then complete on the usual acknowledgements" is the completion clause of the publish automaton
-BORROW = {"C12": [("C05", {"C05.not_fired_on_required_ack"}, "C12.resumed_request_not_completed_by_its_acknowledgement")]}
+# C13: "once a request has been ... purged nothing more is ever written for it" is the carry-over clause of the clean-session automaton
+BORROW = {"C12": [("C05", {"C05.not_fired_on_required_ack"}, "C12.resumed_request_not_completed_by_its_acknowledgement")],
+          "C13": [("C11", {"C11.carried_over_to_next_connection"}, "C13.written_for_a_purged_request")]}
 WALKS = {"quick": 240, "thorough": 4000}
 
 ASSUME = [
